@@ -8,12 +8,15 @@ import (
 	"context"
 	"fmt"
 	"sort"
+	"strconv"
 	"strings"
 
 	"github.com/Masterminds/semver"
 	"github.com/google/go-containerregistry/pkg/name"
 	conregv1 "github.com/google/go-containerregistry/pkg/v1"
+	kerrors "k8s.io/apimachinery/pkg/api/errors"
 	metav1 "k8s.io/apimachinery/pkg/apis/meta/v1"
+	"k8s.io/apimachinery/pkg/apis/meta/v1/unstructured"
 	"k8s.io/apimachinery/pkg/runtime"
 	"k8s.io/apimachinery/pkg/types"
 	"k8s.io/utils/ptr"
@@ -69,12 +72,30 @@ func c17LockPkgsOf(l *v1beta1.Lock) []c17Pkg {
 
 // ---------------------------------------------------------------- Resolve
 
+// c17Env: what other writers of the Lock store right before each of Resolve's API calls that
+// follow its first Get (Interf of the model). nil = nobody wrote; a (possibly empty) list = the
+// packages stored by the other writer (the resourceVersion moves in any case).
+type c17Env struct {
+	RmGet   *[]c17Pkg `json:"rmGet"`   // before the Get of RemoveSelf
+	RmUpd   *[]c17Pkg `json:"rmUpd"`   // between the Get and the Update of RemoveSelf
+	Refresh *[]c17Pkg `json:"refresh"` // between RemoveSelf and the refreshing Get
+	Upd     *[]c17Pkg `json:"upd"`     // between the last Get and the Update that adds the revision
+}
+
 type c17ResScn struct {
 	Kind   string    `json:"kind"` // "resolve"
 	Upg    bool      `json:"upg"`
 	Lock   []c17Pkg  `json:"lock"`
 	Self   c17Pkg    `json:"self"`
+	Env    *c17Env   `json:"env,omitempty"`
 	Oracle c17Oracle `json:"oracle"`
+}
+
+func (e *c17Env) points() []*[]c17Pkg {
+	if e == nil {
+		return nil
+	}
+	return []*[]c17Pkg{e.RmGet, e.RmUpd, e.Refresh, e.Upd}
 }
 
 type c17ResObs struct {
@@ -89,6 +110,8 @@ func c17ResErrKind(err error) string {
 	switch t := c17ErrText(err); {
 	case t == "":
 		return ""
+	case kerrors.IsConflict(err):
+		return "conflict"
 	case strings.Contains(t, "cannot initialize dependency graph"):
 		return "initDag"
 	case strings.Contains(t, "missing dependencies:"):
@@ -130,7 +153,10 @@ func c17ResRun(s c17ResScn) (c17ResObs, []Mon, string) {
 	var found, installed, invalid int
 	var err error
 	var mons []Mon
-	if p := Guard(func() { found, installed, invalid, err = m.Resolve(context.Background(), meta, pr) }); p != "" {
+	consumed := c17InstallWriters(st, s)
+	p := Guard(func() { found, installed, invalid, err = m.Resolve(context.Background(), meta, pr) })
+	st.Before = nil // the other writers act during Resolve only; what follows reads the final state
+	if p != "" {
 		return c17ResObs{Err: "panic", Lock: []c17Pkg{}}, []Mon{{Sig: "C17:resolve-panic", Why: p}}, "panic"
 	}
 	after := &v1beta1.Lock{}
@@ -139,23 +165,22 @@ func c17ResRun(s c17ResScn) (c17ResObs, []Mon, string) {
 
 	// well-formedness of the lock w.r.t. this revision (LockWF of the model): unique revision
 	// names; an entry under the revision's source is the revision's own entry with the same
-	// dependencies; entries named like the revision carry no deprecated type
-	wf := true
-	names := map[string]bool{}
-	for _, p := range s.Lock {
-		if names[p.Name] {
-			wf = false
+	// dependencies; entries named like the revision carry no deprecated type. Of the other
+	// writers (EnvWF of the model): what RemoveSelf's Get reads back is well-formed in the same
+	// sense; what the refreshing Get reads back holds only the revision's own entries.
+	wf := c17LockWF(s.Lock, s.Self)
+	if s.Env != nil {
+		if s.Env.RmGet != nil {
+			wf = wf && c17LockWF(*s.Env.RmGet, s.Self)
 		}
-		names[p.Name] = true
-		if p.Source == s.Self.Source && (p.Name != s.Self.Name || !c17EqualJSON(p.Deps, s.Self.Deps)) {
-			wf = false
-		}
-		if p.Name == s.Self.Name && p.Typed {
-			wf = false
+		if s.Env.Refresh != nil {
+			wf = wf && c17OwnEntry(*s.Env.Refresh, s.Self)
 		}
 	}
 	// direct monitor: "satisfied" only if every direct and transitive dependency is in the
-	// lock and every direct dependency's version satisfies its constraint / digest
+	// lock AS STORED WHEN RESOLVE RETURNS (obs.Lock is read from the store after the call, i.e.
+	// after whatever the other writers did) and every direct dependency's version satisfies
+	// its constraint / digest
 	if err == nil && wf {
 		inLock := map[string]c17Pkg{}
 		for _, p := range obs.Lock {
@@ -207,11 +232,133 @@ func c17ResRun(s c17ResScn) (c17ResObs, []Mon, string) {
 	if !wf {
 		cls = "nonwf/" + cls
 	}
+	if s.Env != nil {
+		cls = "writers=" + *consumed + "/" + cls
+	}
 	return obs, mons, cls
+}
+
+// c17LockWF is LockWF of the model.
+func c17LockWF(lock []c17Pkg, self c17Pkg) bool {
+	names := map[string]bool{}
+	for _, p := range lock {
+		if names[p.Name] {
+			return false
+		}
+		names[p.Name] = true
+		if p.Source == self.Source && (p.Name != self.Name || !c17EqualJSON(p.Deps, self.Deps)) {
+			return false
+		}
+		if p.Name == self.Name && p.Typed {
+			return false
+		}
+	}
+	return true
+}
+
+// c17OwnEntry is OwnEntry of the model.
+func c17OwnEntry(lock []c17Pkg, self c17Pkg) bool {
+	for _, p := range lock {
+		if p.Source == self.Source && (p.Name != self.Name || !c17EqualJSON(p.Deps, self.Deps)) {
+			return false
+		}
+		if p.Name == self.Name && p.Source != self.Source {
+			return false
+		}
+	}
+	return true
+}
+
+var c17LockGK = v1beta1.LockGroupVersionKind.GroupKind()
+
+// c17StoreLock is the write of another client: it replaces the stored packages (out of band,
+// through simstore's Mutate) and always moves the resourceVersion, like any write that changes
+// the object (an annotation counts the writes so that equal contents are a change too).
+func c17StoreLock(st *Store, pkgs []c17Pkg, n int) {
+	m, err := runtime.DefaultUnstructuredConverter.ToUnstructured(&v1beta1.Lock{Packages: c17LockPackages(pkgs)})
+	if err != nil {
+		panic(err)
+	}
+	st.Mutate(c17LockGK, "", "lock", func(u *unstructured.Unstructured) {
+		if p, ok := m["packages"]; ok {
+			u.Object["packages"] = p
+		} else {
+			delete(u.Object, "packages")
+		}
+		a := u.GetAnnotations()
+		if a == nil {
+			a = map[string]string{}
+		}
+		a["verif.crossplane.io/writes"] = strconv.Itoa(n)
+		u.SetAnnotations(a)
+	})
+}
+
+// c17InstallWriters realises s.Env on the store: in simstore's Before-the-call window of the
+// matching API call of Resolve the other writer's contents are stored. Resolve's calls on the
+// Lock are: Get; [moved entry: Get (RemoveSelf), Update (if an entry with the revision's name
+// is there), Get (refresh)]; [Update (revision not in the lock as last read)]. Nothing is
+// injected: an Update that follows such a write fails because the resourceVersion it carries
+// is stale. Every point fires at most once (a retried Update is not interfered with again).
+// The returned string names the points whose write was applied.
+func c17InstallWriters(st *Store, s c17ResScn) *string {
+	consumed := "none"
+	if s.Env == nil {
+		return &consumed
+	}
+	moved := false
+	for _, p := range s.Lock {
+		moved = moved || (p.Name == s.Self.Name && !p.Typed && p.Source != s.Self.Source)
+	}
+	env := *s.Env
+	gets, writes := 0, 0
+	lockGK := gkString(c17LockGK)
+	st.Before = func(ci CallInfo) {
+		if ci.GK != lockGK || ci.Sub != "" {
+			return
+		}
+		var w **[]c17Pkg
+		name := ""
+		switch ci.Verb {
+		case "get":
+			gets++
+			switch {
+			case moved && gets == 2:
+				w, name = &env.RmGet, "rmGet"
+			case moved && gets == 3:
+				w, name = &env.Refresh, "refresh"
+			}
+		case "update":
+			switch {
+			case moved && gets == 2:
+				w, name = &env.RmUpd, "rmUpd"
+			case (moved && gets == 3) || (!moved && gets == 1):
+				w, name = &env.Upd, "upd"
+			}
+		}
+		if w == nil || *w == nil {
+			return
+		}
+		pk := **w
+		*w = nil
+		writes++
+		c17StoreLock(st, pk, writes)
+		if consumed == "none" {
+			consumed = name
+		} else {
+			consumed += "+" + name
+		}
+	}
+	return &consumed
 }
 
 func c17ResStrings(s c17ResScn) []string {
 	strs := c17DagStrings(s.Lock)
+	for _, w := range s.Env.points() {
+		if w != nil {
+			strs = append(strs, c17DagStrings(*w)...)
+		}
+	}
 	strs = append(strs, s.Self.Version)
 	for _, d := range s.Self.Deps {
 		strs = append(strs, d.Con)
@@ -231,6 +378,19 @@ func c17ResEmit(c *Ctx, s c17ResScn, prefix string) {
 	}
 	if s.Self.Deps == nil {
 		s.Self.Deps = []c17Dep{}
+	}
+	for _, w := range s.Env.points() {
+		if w == nil {
+			continue
+		}
+		if *w == nil {
+			*w = []c17Pkg{} // an emptied lock, not "nobody wrote"
+		}
+		for i := range *w {
+			if (*w)[i].Deps == nil {
+				(*w)[i].Deps = []c17Dep{}
+			}
+		}
 	}
 	s.Oracle = c17MkOracle(c17ResStrings(s))
 	obs, mons, cls := c17ResRun(s)
@@ -522,6 +682,36 @@ func c17RecRun(s c17RecScn) (c17RecObs, []Mon, string) {
 	if cyclic && !dupSource && obs.Err != "sortDag" {
 		mons = append(mons, Mon{Sig: "C17:cycle-undetected", Why: "the lock has a dependency cycle but Reconcile returned " + obs.Err})
 	}
+	if obs.Act == "update" && panicked == "" {
+		// the version an installed dependency is moved to must be admitted by EVERY parent
+		// (every lock package with an edge towards it; lock.go AddNeighbors records the first
+		// dependency entry of a parent for that package) and be the lowest not-older / highest
+		// older such tag: the same judgement as on findDependencyVersionToUpdate, but on the
+		// write of the real Reconcile with the real upgrading DAG
+		src, ver := c17SplitImage(img)
+		var parents []string
+		seenSrc := map[string]bool{}
+		for _, p := range s.Lock {
+			if seenSrc[p.Source] {
+				continue
+			}
+			seenSrc[p.Source] = true
+			for _, d := range p.Deps {
+				if d.Pkg == src {
+					parents = append(parents, d.Con)
+					break
+				}
+			}
+		}
+		insVer := ""
+		for _, in := range s.Installed {
+			if in.Source == src {
+				insVer = in.Version
+			}
+		}
+		um, _ := c17UpdMonitor(parents, insVer, s.Down, allTags, ver, "")
+		mons = append(mons, um...)
+	}
 	if obs.Act == "create" {
 		// the created version must satisfy the constraint of some edge towards that package
 		src, ver := c17SplitImage(img)
@@ -600,8 +790,92 @@ func c17GenRegistryTags(r *Rng, max int) []string {
 	return tags
 }
 
+// c17ReconcileSharedDep: upgrades enabled, an installed dependency shared by two or three
+// parents whose range constraints differ, a tag list around them: the version it is moved to
+// has to be admitted by all parents, not by the parent whose edge made it "implied".
+func c17ReconcileSharedDep(c *Ctx) {
+	r := c.Rng
+	s := c17RecScn{Upg: true, Down: r.Bool()}
+	plain := func() string { return fmt.Sprintf("%d.%d.%d", r.Intn(3), r.Intn(3), r.Intn(3)) }
+	rng := func() string {
+		switch x := r.Intn(20); {
+		case x < 6: // lower bounds: several of them always leave candidates
+			return fmt.Sprintf(">=%d.%d.0", r.Intn(3), r.Intn(3))
+		case x < 9:
+			return ">" + plain()
+		case x < 11:
+			return ">=" + plain()
+		case x < 14: // upper bounds
+			return fmt.Sprintf("<%d.%d.0", r.Range(1, 3), r.Intn(3))
+		case x < 15:
+			return "<=" + plain()
+		case x < 16:
+			return "^" + plain()
+		case x < 17:
+			return fmt.Sprintf("~%d.%d", r.Intn(3), r.Intn(3))
+		case x < 18:
+			return ">=" + plain() + ", <" + fmt.Sprintf("%d.0.0", r.Range(1, 3))
+		case x < 19:
+			return fmt.Sprintf("%d.x", r.Intn(3))
+		default:
+			return "*"
+		}
+	}
+	perm := r.Perm(len(c17Repos))
+	dep := c17Repos[perm[0]]
+	installed := plain()
+	np := r.Range(2, 3)
+	pkgs := []c17Pkg{{Name: fmt.Sprintf("p%d", perm[0]), Source: dep, Version: installed}}
+	for i := 1; i <= np; i++ {
+		p := c17Pkg{Name: fmt.Sprintf("p%d", perm[i]), Source: c17Repos[perm[i]], Version: "1.0.0"}
+		p.Deps = append(p.Deps, c17Dep{Pkg: dep, Con: rng()})
+		if i > 1 && r.Chance(1, 4) { // a present, satisfied dependency among the parents
+			p.Deps = append(p.Deps, c17Dep{Pkg: c17Repos[perm[1]], Con: ">=0.0.0"})
+		}
+		pkgs = append(pkgs, p)
+	}
+	for _, i := range r.Perm(len(pkgs)) {
+		s.Lock = append(s.Lock, pkgs[i])
+	}
+	var tags []string
+	for x := 0; x < 3; x++ { // a dense tag list around the constraints
+		for y := 0; y < 3; y++ {
+			if r.Chance(7, 10) {
+				tags = append(tags, fmt.Sprintf("%d.%d.0", x, y))
+			}
+		}
+	}
+	for i, n := 0, r.Range(0, 4); i < n; i++ {
+		switch {
+		case r.Chance(1, 4):
+			tags = append(tags, Pick(r, []string{"latest", "main", "1.x", "v"}))
+		case r.Chance(1, 3):
+			tags = append(tags, c17GenTagVersion(r))
+		default:
+			tags = append(tags, plain())
+		}
+	}
+	if r.Chance(1, 2) {
+		tags = append(tags, installed)
+	}
+	shuffled := make([]string, 0, len(tags))
+	for _, i := range r.Perm(len(tags)) {
+		shuffled = append(shuffled, tags[i])
+	}
+	tags = shuffled
+	s.Tags = []c17RepoTags{{Repo: dep, Tags: tags, Fail: r.Chance(1, 40)}}
+	if !r.Chance(1, 10) {
+		s.Installed = []c17Inst{{Source: dep, Version: installed}}
+	}
+	c17RecEmit(c, s, "rnd/shared")
+}
+
 func c17ReconcileRandom(c *Ctx) {
 	r := c.Rng
+	if r.Chance(1, 4) {
+		c17ReconcileSharedDep(c)
+		return
+	}
 	s := c17RecScn{Upg: r.Bool()}
 	s.Down = s.Upg && r.Bool()
 	k := r.Range(1, 7)
